@@ -1,6 +1,7 @@
 package props
 
 import (
+	"go/token"
 	"fmt"
 	"sort"
 	"strings"
@@ -168,7 +169,7 @@ func (c *Ctx) guardedByInfer(report bool) {
 				if first == nil {
 					first = a.Instr
 				}
-			} else if a.Write && mode == locks.Shared {
+			} else if a.Write && mode == locks.Shared && !c.writeOnlyForExclusiveCallers(a, best) {
 				bad = append(bad, fmt.Sprintf("write in %s at %s under a read lock only", fname(a.Fn), c.P.InstrPos(a.Instr)))
 				if first == nil {
 					first = a.Instr
@@ -189,6 +190,80 @@ func (c *Ctx) guardedByInfer(report bool) {
 	c.R.Count("fields immutable after construction", nImm)
 	c.R.Count("accesses to guarded fields", nacc)
 	c.R.Floor("fields guarded by a lock (inferred)", nGuarded, 15)
+}
+
+// writeOnlyForExclusiveCallers: the write sits in a helper behind a branch on one of the helper's boolean parameters
+// (`child(level, create bool)`: the map is written only when create is true), and every call site that holds the lock
+// only shared passes the constant that does not take that branch. The helper's entry lockset is the weakest of its
+// callers'; this looks at the call sites one by one.
+func (c *Ctx) writeOnlyForExclusiveCallers(a fieldAccess, lock string) bool {
+	fn := a.Fn
+	if fn == nil || fn.Parent() != nil {
+		return false
+	}
+	// the dominating test of a boolean parameter and the value it has on the way to the write
+	var par *ssa.Parameter
+	want := false
+	for b := a.Instr.Block(); b != nil && b.Idom() != nil && par == nil; b = b.Idom() {
+		id := b.Idom()
+		iff, ok := id.Instrs[len(id.Instrs)-1].(*ssa.If)
+		if !ok {
+			continue
+		}
+		cond, neg := iff.Cond, false
+		if u, isU := cond.(*ssa.UnOp); isU && u.Op == token.NOT {
+			cond, neg = u.X, true
+		}
+		p, isP := cond.(*ssa.Parameter)
+		if !isP || p.Parent() != fn {
+			continue
+		}
+		onTrue := id.Succs[0] == b || (len(id.Succs[0].Preds) == 1 && id.Succs[0].Dominates(b))
+		onFalse := id.Succs[1] == b || (len(id.Succs[1].Preds) == 1 && id.Succs[1].Dominates(b))
+		if onTrue == onFalse {
+			continue
+		}
+		par, want = p, onTrue != neg
+	}
+	if par == nil {
+		return false
+	}
+	idx := paramIndex(fn, par)
+	lk := c.Locks()
+	el := c.entryLocks()
+	sites := c.P.Callers(fn)
+	if len(sites) == 0 {
+		return false
+	}
+	for _, s := range sites {
+		if _, isCall := s.(*ssa.Call); !isCall || idx >= len(s.Common().Args) {
+			return false
+		}
+		mode, held := locks.Mode(0), false
+		if st, ok := lk.HeldBefore(s); ok {
+			for _, h := range st.Must {
+				if h.Path.Class() == lock {
+					mode, held = h.Mode, true
+				}
+			}
+		}
+		if !held {
+			if m, ok := el[s.Parent()][lock]; ok {
+				mode, held = m, true
+			}
+		}
+		if held && mode != locks.Shared {
+			continue // exclusive here: may write
+		}
+		k, isK := s.Common().Args[idx].(*ssa.Const)
+		if !isK || k.Value == nil {
+			return false
+		}
+		if (k.Value.ExactString() == "true") == want {
+			return false // this caller takes the writing branch without the exclusive lock
+		}
+	}
+	return true
 }
 
 func rw(w bool) string {
